@@ -436,6 +436,23 @@ BAD_FRAMES = {
 }
 
 
+def garbage_bytes(act):
+    """Datagrams that are not valid QUIC for this connection (none of them can be decrypted)."""
+    v = act.get("variant", "short")
+    n = act.get("len", 30)
+    if v == "short":            # short header, unknown CID (a server in FIRSTFLIGHT asserts on it: C05 territory)
+        return b"\x40" + bytes(n)
+    if v == "truncated":        # long header cut inside the CID fields: header parse error
+        return b"\xc0\x00\x00\x00\x01\x14" + bytes(3)
+    if v == "badversion":       # long header of an unsupported version
+        return b"\xc0\x0a\x0a\x0a\x0a\x08" + bytes(8) + b"\x08" + bytes(8) + bytes(n)
+    if v == "vn":               # a Version Negotiation packet out of the blue
+        return b"\xc0\x00\x00\x00\x00\x08" + bytes(8) + b"\x08" + bytes(8) + b"\x00\x00\x00\x01"
+    if v == "small_initial":    # Initial header in a datagram below 1200 bytes
+        return b"\xc0\x00\x00\x00\x01\x08" + bytes(8) + b"\x08" + bytes(8) + b"\x00\x40\x20" + bytes(32)
+    return bytes([act.get("first", 0x40)]) + bytes(n)
+
+
 def do_act(sim, pair, tracers, act, notes):
     kind = act["do"]
     side = act.get("side", "client")
@@ -451,7 +468,7 @@ def do_act(sim, pair, tracers, act, notes):
             pair.pump(ep)
     elif kind in ("peer_close", "fatal", "reserved"):
         as_side = "server" if side == "client" else "client"        # puppet impersonates the peer of `side`
-        if ep.conn is None or pair.endpoint(as_side).conn is None:
+        if ep.conn is None:
             notes.append("skipped:%s(no-conn)" % kind)
             return
         pup = sim.Puppet(pair, as_side=as_side)
@@ -470,12 +487,15 @@ def do_act(sim, pair, tracers, act, notes):
                 frames = [F.stream(sid, 0, b"x")]
             else:
                 frames = BAD_FRAMES[which](F)
+        was = tracers[side].closing_since
         try:
             if kind == "reserved":
                 tracers[side].expect_reserved = True
                 pup.send_frames(epoch, frames, deliver="now", reserved_bits=1)
             else:
                 pup.send_frames(epoch, frames, deliver="now")
+            if was is None and tracers[side].closing_since is not None:
+                notes.append("effect:%s:%s" % (kind, epoch))       # this very packet started the closing
         except ValueError as e:
             tracers[side].expect_reserved = False
             notes.append("skipped:%s(%s)" % (kind, str(e)[:40]))
@@ -507,7 +527,7 @@ def do_act(sim, pair, tracers, act, notes):
             pair.pump(ep)
     elif kind == "garbage":
         # a datagram that is not QUIC at all, from the peer's address
-        data = bytes([act.get("first", 0x40)]) + bytes(act.get("len", 30))
+        data = garbage_bytes(act)
         src = pair.peer_of(ep).addr
         if ep.conn is not None:
             pair.deliver_now(data, src, ep)
@@ -532,7 +552,9 @@ def do_act(sim, pair, tracers, act, notes):
 
 
 def run_scenario(case):
+    import logging
     import sim
+    logging.getLogger("quic").setLevel(logging.CRITICAL)
     cfg = case.get("cfg", {})
     slack = cfg.get("slack", 0.0)
     versions = cfg.get("versions", "default")
@@ -570,13 +592,19 @@ def run_scenario(case):
             pair.connect()
         else:
             pair.client.connect(pair.server.addr)
+        pumped = cfg.get("connect_pump", True)
         for a in timeline:
             if a.get("t", 0.0) < 0:
                 continue
+            if not pumped and a["t"] > 0:
+                pair.pump(pair.client)      # connect() without transmit: the t = 0 actions ran first, now transmit
+                pumped = True
             dt = t0 + a["t"] - pair.clock.now
             if dt > 0:
                 pair.advance(dt)
             do_act(sim, pair, tracers, a, notes)
+        if not pumped:
+            pair.pump(pair.client)
         horizon = 3 * max(cfg.get("c_idle", 2.5), cfg.get("s_idle", 2.5)) + 30.0
 
         def done(p):
@@ -637,7 +665,7 @@ def scenario(case):
 
 def gen_case(rng, kind=None):
     kinds = ["close"] * 6 + ["peer_close"] * 4 + ["fatal"] * 3 + ["blackout"] * 3 + ["idle"] * 2 + ["vn"] * 1 + ["corrupt_first"] * 1 + \
-        ["eager_garbage"] * 1 + ["mix"] * 3 + ["manual"] * 2
+        ["eager_garbage"] * 1 + ["mix"] * 3 + ["manual"] * 2 + ["race"] * 2
     kind = kind or rng.choice(kinds)
     idles = [0.6, 1.0, 2.5, 2.5, 5.0]
     cfg = {"c_idle": rng.choice(idles), "s_idle": rng.choice(idles), "retry": rng.random() < 0.15, "cc": rng.choice(["reno", "cubic"]),
@@ -706,15 +734,29 @@ def gen_case(rng, kind=None):
     elif kind == "eager_garbage":
         cfg["eager"] = True
         cfg["retry"] = False
-        case["acts"].append({"t": -1.0, "do": "garbage", "side": "server", "first": rng.choice([0x40, 0x00, 0xC0, 0xFF]), "len": rng.choice([5, 30, 1300])})
+        case["acts"].append({"t": -1.0, "do": "garbage", "side": "server", "len": rng.choice([5, 30, 1300]),
+                             "variant": rng.choice(["truncated", "truncated", "badversion", "vn", "small_initial", "short"])})
         if rng.random() < 0.5:
             case["acts"].append(close_act())
     elif kind == "mix":
         makers = [close_act, close_act, peer_close_act, fatal_act, blackout_act,
                   lambda: {"t": round(rng.uniform(0.06, 1.0), 3), "do": "rebind_ping", "uid": rng.randrange(1000)},
-                  lambda: {"t": when(), "do": "garbage", "side": rng.choice(["client", "server"]), "len": rng.choice([3, 30, 200])}]
+                  lambda: {"t": when(), "do": "garbage", "side": rng.choice(["client", "server"]), "len": rng.choice([3, 30, 200]),
+                           "variant": rng.choice(["short", "truncated", "badversion", "vn", "small_initial"])}]
         for _ in range(rng.randint(2, 4)):
             case["acts"].append(rng.choice(makers)())
+    elif kind == "race":
+        # close() without transmitting, and before the next datagrams_to_send a peer close / fatal frame / plain
+        # garbage arrives at the same endpoint (or the other way round)
+        t = when()
+        first = {"t": t, "do": "close_nopump", "side": side, "code": rng.randrange(0, 1 << 10)}
+        second = rng.choice([peer_close_act, peer_close_act, fatal_act])()
+        second.update(t=t, side=side)
+        if t < 0.04:
+            second["epoch"] = "initial" if t < 0.02 else rng.choice(["handshake", "1rtt"])
+        else:
+            second["epoch"] = "1rtt"
+        case["acts"] += [first, second] if rng.random() < 0.7 else [second, dict(first, do="close")]
     elif kind == "manual":
         for _ in range(rng.randint(2, 6)):
             r = rng.random()
@@ -724,7 +766,8 @@ def gen_case(rng, kind=None):
             elif r < 0.5:
                 case["acts"].append({"t": when(), "do": "extra_send", "side": s})
             elif r < 0.7:
-                case["acts"].append({"t": when(), "do": "garbage", "side": s, "len": rng.choice([3, 30, 200])})
+                case["acts"].append({"t": when(), "do": "garbage", "side": s, "len": rng.choice([3, 30, 200]),
+                                     "variant": rng.choice(["short", "truncated", "badversion", "vn", "small_initial"])})
             elif r < 0.85:
                 case["acts"].append(close_act(s))
             else:
@@ -799,7 +842,7 @@ def run(ctx):
     n = ctx.n(300, 4000)
     cases = [gen_case(rng) for _ in range(n)]
     stats = {"scenarios": 0, "kinds": {}, "term_kinds": {}, "outcomes": {}, "api_calls_traced": 0, "timer_checks": 0, "model_ops": {},
-             "anomaly_timer_in_past_runs": 0, "busy_loop_firings": 0, "tracing_stopped": {}, "skipped_actions": 0, "closing_datagrams_seen": 0,
+             "anomaly_timer_in_past_runs": 0, "busy_loop_firings": 0, "tracing_stopped": {}, "skipped_actions": 0, "injected_close_started_closing": {}, "closing_datagrams_seen": 0,
              "virtual_seconds": 0.0, "wire_datagrams": 0}
     B = 50
     for i in range(0, len(cases), B):
@@ -815,7 +858,11 @@ def run(ctx):
             if any("re-armed in the past" in a for a in r["anomalies"]):
                 stats["anomaly_timer_in_past_runs"] += 1
             stats["busy_loop_firings"] += sum(r["spins"].values())
-            stats["skipped_actions"] += len(r["notes"])
+            for nt in r["notes"]:
+                if nt.startswith("effect:"):
+                    stats["injected_close_started_closing"][nt[7:]] = stats["injected_close_started_closing"].get(nt[7:], 0) + 1
+                else:
+                    stats["skipped_actions"] += 1
             for s in r["sides"].values():
                 stats["api_calls_traced"] += s["ops"]
                 stats["timer_checks"] += s["timer_checks"]
@@ -831,7 +878,8 @@ def run(ctx):
     return corr.merge_coverage(
         [tm],
         "seeded scenario grammar over real QuicConnection pairs (kinds: close / peer close per packet number space / fatal frame / "
-        "blackout / idle / version negotiation / corrupted first datagrams / garbage to an eager server / mixes / manual API orders; "
+        "blackout / idle / version negotiation / corrupted first datagrams / garbage to an eager server / mixes / manual API orders / "
+        "local close racing a peer close; "
         "lossy networks, Retry, v1/v2, timer slack); one evaluation = one endpoint of one scenario, every traced API call is one model "
         "op compared on result + state class + queue length; distinct = distinct op-trace encoding; non-trivial = started, >= 6 ops and "
         "termination reported",
